@@ -5,3 +5,14 @@ CLAIMS={
         T+"interprocedural def-use slice on go/ssa with mutator summaries; call-graph reachability for reseed sites"),
 }
 NA={}
+CLAIMS.update({
+ "C05":("other","Structural necessary conditions of the IGE wrappers, each breaking the stated behaviour when broken: length validation edge-dominates both block loops (thresholds = block size); both padding amounts tabulated over every residue of the length lie in 0..15 and complete the block; the strip loop's recovered induction variable covers cut points len-0..len-15 and never goes negative; the 20-byte prefix split is length-guarded; nonces enter the temp-key derivation at fixed width. The cipher equation itself is not decided.",
+        "Trusts go/ssa and the small integer-expression evaluator (constants, + - * / % & | shifts); the loop rule assumes the induction variable is affine in len(decoded message); the IGE chaining equation and buffer aliasing are NOT decided (pinned only by the repository's two test vectors).",
+        T+"guard dominance on the SSA CFG, abstract evaluation of padding expressions over residue classes, counted-loop recovery from the induction phi, forward def-use width rule"),
+ "C06":("other","Structural necessary condition for value-independence of the key exchange: no minimal-form big.Int.Bytes() result reaches a fixed-width protocol position (all Bytes() call sites in handshake, temp keys, RSA, fingerprint code are followed forward interprocedurally and every use classified; the padding helper's body and the width constant per operand are verified), plus success-exit effects and the fingerprint layout. Factorisation/RSA/DH arithmetic and agreement with a real server are not decided.",
+        "Trusts go/ssa, the sink tables (width-insensitive: TL bytes fields, PutMessage, SetBytes, hex dump) and the protocol-width table (6 rows).",
+        T+"forward def-use flow from every (*big.Int).Bytes() call with use classification; dominance of success effects; SSA origin tracing"),
+ "C18":("other","Structural necessary conditions of the SRP answer: every big-integer→bytes conversion that reaches a hash input or the returned A is left-padded to 256 bytes (helper body verified), B is padded before hashing, validation edge-dominates all arithmetic with the four range tests on the accepting exit, empty password short-circuits to the 'no password' answer, t+=p exactly on t<0, ephemeral from crypto/rand. That M1 verifies for the right password only is numerical and not decided.",
+        "Trusts go/ssa, math/big and the hash primitives; decides which values are hashed and in what width, not the SRP equations.",
+        T+"forward width rule, guard dominance with relation normalisation of big.Int.Cmp idioms, variadic-argument origin tracing"),
+})
